@@ -148,6 +148,7 @@ type run struct {
 	drift     int
 	hung      bool
 	cancelled bool
+	pblocked  bool
 }
 
 func (r *run) producersIdle() bool {
@@ -223,6 +224,17 @@ func (r *run) step(name string, scripted bool) bool {
 	}
 	r.refresh()
 	emit(implW, ev{"a": "Step", "t": name, "from": from, "to": l, "st": r.state()})
+	// producers never wait for anybody: a producer that is inside Write must be able to take its next step whatever the
+	// other goroutines are doing (no lock, no condition). Reported once per run.
+	if !r.pblocked {
+		for _, n := range r.order {
+			if pt := r.threads[n]; strings.HasPrefix(n, "P") && pt != nil && r.inWrite[n] && !pt.Done && !vsched.CanRun(pt) {
+				r.pblocked = true
+				obs(ev{"a": "PBlocked", "p": n, "at": pt.Label, "while": name + "@" + l})
+				break
+			}
+		}
+	}
 	return true
 }
 
